@@ -22,7 +22,7 @@ RULE = ("configurations = identity + each of 12 operators (rename keys, rename b
         "all kinds, k<=1). distinct = distinct (configuration, sub-check case); non-trivial as in the sub-checks.")
 ASSUMPTIONS = ["generated packages follow the documented conventions (validated before use; binding of the identity package "
                "to the repository's demo package is reported in the evidence)"]
-SUBS = ["c01", "c02", "c03", "c04", "c05", "c06", "c07", "c08", "c11"]
+SUBS = ["c01", "c02", "c03", "c04", "c05", "c06", "c07", "c08", "c11", "c12"]
 
 
 def plan(tier, seed):
@@ -39,6 +39,8 @@ def plan(tier, seed):
 
 
 def _sub_shards(sub, first):
+    if sub == "c12":
+        return [{"mode": "world"}]
     if sub == "c05":
         return [{"index": 0, "count": 1, "first": first}]
     if sub == "c11":
